@@ -161,7 +161,7 @@ pub const RULE: &str = "per parser target (HTTP request, HTTP response, ws frame
 pub const ASSUMPTIONS: [&str; 4] = [
             "isolation: one worker process per range of cases; death of a worker is attributed to the case it had announced",
             "memory rule: peak live bytes during the call <= 4096 x bytes supplied + 1 MiB; a single request above 1 GiB is refused by the harness allocator (the resulting abort is what an unbounded claim produces in production)",
-            "CPU budget 10 s per case (ITIMER_VIRTUAL); the 60 s wall-clock watchdog yields inconclusive, not violated",
+            "CPU budget 10 s per case (ITIMER_PROF: user + system time); the 60 s wall-clock watchdog yields inconclusive, not violated",
             "include directives and list files are not generated (they read administrator-chosen paths)",
 ];
 
